@@ -85,6 +85,37 @@ def gen_resize(repo, read):
     sq = [ast.unparse(x) for x in strip_docstring(find_function(tree, "_ReusablePoolExecutor._setup_queues").body)]
     queue_sized_from_the_host = sq == ["queue_size = 2 * cpu_count() + EXTRA_QUEUED_CALLS",
                                        "super()._setup_queues(job_reducers, result_reducers, queue_size=queue_size)"]
+    # the two capacity formulas, as functions of max_workers / of the host's CPU count (nat arithmetic: +, *, constants, and the
+    # module constant EXTRA_QUEUED_CALLS read from its assignment)
+    extra = [x for x in ptree.body if isinstance(x, ast.Assign) and ast.unparse(x.targets[0]) == "EXTRA_QUEUED_CALLS"]
+    if len(extra) != 1 or not isinstance(extra[0].value, ast.Constant) or not isinstance(extra[0].value.value, int) or extra[0].value.value < 0:
+        raise Refuse("EXTRA_QUEUED_CALLS is no longer one module-level natural-number constant")
+    extra_v = extra[0].value.value
+
+    def arith(e, var):
+        if isinstance(e, ast.Constant) and isinstance(e.value, int) and not isinstance(e.value, bool) and 0 <= e.value < 1000:
+            return str(e.value)
+        if isinstance(e, ast.Name) and e.id == "EXTRA_QUEUED_CALLS":
+            return str(extra_v)
+        if ast.unparse(e) == var:
+            return "n"
+        if isinstance(e, ast.BinOp) and isinstance(e.op, (ast.Add, ast.Mult)):
+            return f"({arith(e.left, var)} {'+' if isinstance(e.op, ast.Add) else '*'} {arith(e.right, var)})"
+        raise Refuse(f"call-queue capacity: expression outside (+, *, constants, {var}): {ast.unparse(e)[:80]}", e)
+    psq = strip_docstring(find_function(ptree, "ProcessPoolExecutor._setup_queues").body)
+    if len(psq) < 2 or not isinstance(psq[0], ast.If) or ast.unparse(psq[0].test) != "queue_size is None" or psq[0].orelse \
+            or len(psq[0].body) != 1 or not isinstance(psq[0].body[0], ast.Assign) or ast.unparse(psq[0].body[0].targets[0]) != "queue_size":
+        raise Refuse("ProcessPoolExecutor._setup_queues: no longer starts with `if queue_size is None: queue_size = ...`")
+    plain_formula = arith(psq[0].body[0].value, "self._max_workers")
+    cq = psq[1]
+    if not (isinstance(cq, ast.Assign) and ast.unparse(cq.targets[0]) == "self._call_queue" and isinstance(cq.value, ast.Call)
+            and ast.unparse(cq.value.func) == "_SafeQueue" and {k.arg: ast.unparse(k.value) for k in cq.value.keywords}.get("max_size") == "queue_size"):
+        raise Refuse("ProcessPoolExecutor._setup_queues: the call queue is no longer `_SafeQueue(max_size=queue_size, ...)`")
+    rsq = strip_docstring(find_function(tree, "_ReusablePoolExecutor._setup_queues").body)
+    if rsq and isinstance(rsq[0], ast.Assign) and ast.unparse(rsq[0].targets[0]) == "queue_size":
+        reusable_formula = arith(rsq[0].value, "cpu_count()")
+    else:
+        reusable_formula = None
     b = lambda x: "true" if x else "false"  # noqa: E731
     text = "(* GENERATED by /verif/tr from /repo's working tree -- do not edit.  source: loky/reusable_executor.py, process_executor.py *)\n"
     text += "From Coq Require Import List Bool.\nFrom LokyV Require Import Lib.ResizeLib.\nImport ListNotations.\n"
@@ -93,4 +124,10 @@ def gen_resize(repo, read):
     text += f"Definition submit_is_excluded_during_resize : bool := {b(submit_excluded)}.\n"
     text += f"Definition idle_exit_gives_up_when_the_management_lock_is_taken : bool := {b(idle_exit_needs_lock)}.\n"
     text += f"Definition call_queue_is_sized_from_the_host_cpu_count : bool := {b(queue_sized_from_the_host)}.\n"
+    text += f"(* slots of the call queue of a plain executor, as a function of max_workers *)\nDefinition plain_queue_slots (n : nat) : nat := {plain_formula}.\n"
+    if reusable_formula is not None and queue_sized_from_the_host:
+        text += f"(* slots of the call queue of the reusable executor, as a function of the host's CPU count *)\nDefinition reusable_queue_slots (n : nat) : nat := {reusable_formula}.\n"
+    else:
+        # no override (or one of another shape): the reusable executor's queue is the plain one, sized from its initial max_workers
+        text += "Definition reusable_queue_slots (n : nat) : nat := 0.\n"
     return text, {"program": prog, "facts": {"waits": waits_until_empty, "submit_excluded": submit_excluded, "idle_lock": idle_exit_needs_lock}}
